@@ -482,7 +482,7 @@ def mutated(draw, tokens):
     """-> (label, new_tokens_or_text, is_text)."""
     toks = list(tokens)
     n = len(toks)
-    k = draw(st.integers(0, 10))
+    k = draw(st.integers(0, 11))
     if n == 0:
         return ("junk-only", [draw(st.sampled_from(_JUNK))], False)
     i = draw(st.integers(0, n - 1))
@@ -537,6 +537,15 @@ def mutated(draw, tokens):
         p = draw(st.integers(0, len(text)))
         c = draw(st.sampled_from(["\x00", "\x08", "\x0b", "\x0c", "\x1f", "\x7f", "\u2028", "\ufeff", "\ud800", "\\", '"', "."]))
         return ("inject-char", text[:p] + c + text[p:], True)
+    if k == 11:
+        # a reserved word where a name follows a description (or any other string): `"about" true`, `"""d""" on`, ...
+        idx = [x for x in range(1, len(toks)) if toks[x] and toks[x][0] in _NAMEISH and not toks[x][0].isdigit()
+               and toks[x - 1][:1] == '"']
+        if idx:
+            x = draw(st.sampled_from(idx))
+            toks[x] = draw(st.sampled_from(["true", "false", "null", "on", "fragment", "query", "extend", "implements", "schema"]))
+            return ("reserved-word-after-string", toks, False)
+        return ("noop", toks, False)
     if k == 10:
         # a malformed (or unusual but legal) escape sequence inside an existing quoted string, where strings are allowed
         idx = [x for x, t in enumerate(toks) if len(t) >= 2 and t[0] == '"' and not t.startswith('"""')]
